@@ -42,6 +42,9 @@ type input struct {
 	Cfg    map[string]int `json:"cfg,omitempty"`
 	// Exact asks for the tick-level comparison of the ideal controller's control path
 	Exact     bool   `json:"exact,omitempty"`
+	// CtlHold: the requester does not take control responses off its port during [from, to)
+	// (back-pressure on the agent's Control port; use with Buf = 1)
+	CtlHold []uint64 `json:"ctl_hold,omitempty"`
 	MaxCycles uint64 `json:"max_cycles,omitempty"`
 }
 
@@ -259,7 +262,9 @@ func run(raw json.RawMessage) (hx.Case, error) {
 	}
 	ctrlOut := d.GetPortByName("Ctrl")
 	d.TickFn = func(dd *memdrv.Driver) bool {
-		progress := dd.Drain()
+		holding := len(in.CtlHold) == 2 && dd.Cycle() >= in.CtlHold[0] && dd.Cycle() < in.CtlHold[1]
+		dd.Hold = map[string]bool{"Ctrl": holding}
+		progress := dd.Drain() || holding
 		for ; seen < len(dd.Log); seen++ {
 			rc := dd.Log[seen]
 			switch {
